@@ -88,6 +88,7 @@ extern int g_nest_calls; extern cfg_t *g_nest_cfg[3]; extern cfg_print_filter_fu
 extern int g_npv_calls; extern cfg_opt_t *g_npv_opt;
 void cfgv_out_byte(unsigned char c) { out_byte(c); }
 static int cfgv_filter_a(cfg_t *c, cfg_opt_t *o) { (void)c; (void)o; return 0; }
+static int cfgv_filter_sec(cfg_t *c, cfg_opt_t *o) { (void)c; (void)o; return 1; }
 
 static int k_type, k_flags2, k_n; static _Bool k_pf, k_comment, k_strnull;
 static void b_print_opt(void)
@@ -98,7 +99,8 @@ static void b_print_opt(void)
 	o.name = name; o.type = k_type; o.flags = k_flags2; o.nvalues = (unsigned)k_n; o.values = k_n ? vp : NULL;
 	for (int i = 0; i < 3; i++) {
 		vp[i] = &v[i]; v[i].number = 0;
-		if (k_type == CFGT_SEC) { title[i][0] = (char)('t' + i); title[i][1] = 0; sec[i].title = (k_flags2 & CFGF_TITLE) ? title[i] : NULL; v[i].section = &sec[i]; }
+		if (k_type == CFGT_SEC) { title[i][0] = (char)('t' + i); title[i][1] = 0; sec[i].title = (k_flags2 & CFGF_TITLE) ? title[i] : NULL; v[i].section = &sec[i];
+			sec[i].pff = nondet_bool() ? cfgv_filter_sec : NULL; }      /* an instance may have a filter of its own: it concerns that instance only */
 		if (k_type == CFGT_STR) v[i].string = (k_strnull && i == 0) ? NULL : name;
 	}
 	if (k_pf) o.pf = cfgv_pf;
@@ -119,7 +121,7 @@ static void b_print_opt(void)
 	CHECK("C19", !g_bad_conversion, "only the known conversions are used");
 	if (k_type == CFGT_SEC)
 		for (int i = 0; i < 3; i++)
-			if (i < k_n) CHECK("C19", g_nest_calls == k_n && g_nest_cfg[i] == &sec[i] && g_nest_pff[i] == cfgv_filter_a && g_nest_indent[i] == indent + 1,
+			if (i < k_n) CHECK("C19,C16", g_nest_calls == k_n && g_nest_cfg[i] == &sec[i] && g_nest_pff[i] == cfgv_filter_a && g_nest_indent[i] == indent + 1,
 					   "each section instance is printed once, in order, under the same effective filter, one indentation level deeper");
 	if (k_pf && g_pf_calls > 0) CHECK("C19", g_pf_opt == &o && g_pf_fp == &g_fp_obj, "the print callback receives this option and this stream");
 }
@@ -163,8 +165,8 @@ static void b_print_cfg(unsigned n)
 		if (i < n) {
 			_Bool rejected = own ? g_fa_verdict[i] : (inherited ? g_fb_verdict[i] : 0);
 			if (!rejected) {
-				CHECK("C19", k < (unsigned)g_optp_calls && g_optp_opt[k] == &opts[i], "every option the effective filter accepts is printed exactly once, in declaration order");
-				if (k < 4) CHECK("C19", g_optp_pff[k] == eff && g_optp_indent[k] == indent, "the option printer gets the effective filter (own filter, else the inherited one) and the same depth");
+				CHECK("C19,C16", k < (unsigned)g_optp_calls && g_optp_opt[k] == &opts[i], "every option the effective filter accepts is printed exactly once, in declaration order");
+				if (k < 4) CHECK("C19,C16", g_optp_pff[k] == eff && g_optp_indent[k] == indent, "the option printer gets the effective filter (own filter, else the inherited one) and the same depth");
 				k++;
 			}
 		}
